@@ -41,6 +41,14 @@ var pool = []def{
 	{"ID", `$ID`, false, true}, {"NUMBER", `$NUMBER`, false, true}, {"STRING", `$STRING`, false, true}, {"WS", `$WS`, false, true}, {"COMMENT", `$COMMENT`, false, true},
 }
 
+// poolU: definitions with characters beyond ASCII - literals in which a multi-byte character comes first, last and in
+// the middle, next to patterns that match the same texts and more (every subset up to size 3 is explored as well)
+var poolU = []def{
+	{"UE", `é`, true, false}, {"UEA", `éa`, true, false}, {"UAE", `aé`, true, false}, {"UETE", `été`, true, false},
+	{"UARR", `→>`, true, false}, {"UEMO", `😀!`, true, false}, {"UA", `a`, true, false},
+	{"ULAT", `[a-z\x00E0-\x00FF]+`, false, false}, {"UES", `\x00E9+`, false, false}, {"UARRS", `[\x2190-\x21FF]>?`, false, false}, {"UEMOS", `\x01F600[!#]`, false, false},
+}
+
 // unescape resolves backslash escapes of a string literal (a backslash makes the next character literal).
 func unescape(s string) string {
 	var b strings.Builder
@@ -324,7 +332,7 @@ func checkSet(r *ev.Run, ds []def, family string) {
 func main() {
 	r := ev.Start("C03", "model_checking")
 	byName := map[string]def{}
-	for _, d := range pool {
+	for _, d := range append(append([]def{}, pool...), poolU...) {
 		byName[d.Name] = d
 	}
 	if r.Replay != "" {
@@ -340,7 +348,7 @@ func main() {
 		r.Finish()
 	}
 	if r.Fork(16) {
-		r.Set("rule", fmt.Sprintf("every subset of up to the size bound of a pool of %d definitions (9 literals incl. escaped quote/backslash/slash, 15 patterns of which 4 also match the empty text and 3 are anchored, 5 predefined patterns; every relation: disjoint, prefix, nested, identical language, literal inside pattern, partial overlap), each given to Spec.DFA directly (in emerge's order, in reverse order, and twice) and through spec.Parse (also after the parsing table was built); per set the product of the returned automaton with the reference automata of all definitions is explored; non-trivial = product with > 1 state; distinct by set+route", len(pool)))
+		r.Set("rule", fmt.Sprintf("every subset of up to the size bound of a pool of %d definitions (9 literals incl. escaped quote/backslash/slash, 15 patterns of which 4 also match the empty text and 3 are anchored, 5 predefined patterns; every relation: disjoint, prefix, nested, identical language, literal inside pattern, partial overlap), and every subset up to size 3 of 11 further definitions with characters beyond ASCII (a multi-byte character first, last and in the middle of a literal), each given to Spec.DFA directly (in emerge's order, in reverse order, and twice) and through spec.Parse (also after the parsing table was built); per set the product of the returned automaton with the reference automata of all definitions is explored; non-trivial = product with > 1 state; distinct by set+route", len(pool)))
 		r.Set("evaluations", r.Get("sets"))
 		r.Set("traces_validated_against_impl", r.Get("sets"))
 		r.Finish()
@@ -389,6 +397,36 @@ func main() {
 		}
 	}
 	rec(0)
+	// the same over the definitions with characters beyond ASCII
+	var recU func(from int)
+	recU = func(from int) {
+		if len(cur) > 0 {
+			n++
+			if r.MineIdx(n) && !r.Expired() {
+				ds := append([]def{}, cur...)
+				sort.SliceStable(ds, func(i, j int) bool {
+					if ds[i].Literal != ds[j].Literal {
+						return ds[i].Literal
+					}
+					if len(ds[i].Name) != len(ds[j].Name) {
+						return len(ds[i].Name) < len(ds[j].Name)
+					}
+					return ds[i].Name < ds[j].Name
+				})
+				checkSet(r, ds, fmt.Sprintf("non_ascii_size%d", len(ds)))
+			}
+		}
+		if len(cur) == 3 {
+			return
+		}
+		for i := from; i < len(poolU); i++ {
+			cur = append(cur, poolU[i])
+			recU(i + 1)
+			cur = cur[:len(cur)-1]
+		}
+	}
+	cur = nil
+	recU(0)
 	r.Assume("a string literal denotes its characters with backslash escapes resolved (a backslash makes the next character literal); pattern semantics as in C02; the pool avoids classes containing NUL, so the known finding nul-epsilon of C02 does not interfere here")
 	r.Finish()
 }
